@@ -1230,6 +1230,91 @@ theorem volumes_add_up_nd (axes : List (List Nat)) (hpos : ∀ sizes ∈ axes, 0
       simp [volCoef]
 
 
+/-- **cell edges agree**: edge `p` of chunk `i` is edge `offset i + p` of the base grid -/
+theorem cell_edges_agree (lo hi : K) (sizes : List Nat) (hpos : 0 < sizes.sum) (d : K × K) (i p : Nat)
+    (hi' : i < sizes.length) (hs : 0 < sizeAt sizes i) :
+    cellEdge ((bounds1d lo hi sizes).getD i d).1 ((bounds1d lo hi sizes).getD i d).2 (sizeAt sizes i) p
+      = cellEdge lo hi sizes.sum (offset sizes i + p) := by
+  have hN : (sizes.sum : K) ≠ 0 := by exact_mod_cast (Nat.pos_iff_ne_zero.1 hpos)
+  have hn : (sizeAt sizes i : K) ≠ 0 := by exact_mod_cast (Nat.pos_iff_ne_zero.1 hs)
+  unfold cellEdge
+  rw [subgrid_spacing lo hi sizes hpos d i hi' hs, bounds1d_getD lo hi sizes hpos i d hi']
+  simp only [lat]; push_cast
+  ring
+
+/-- **per-cell volumes agree** (one axis, any volume measure with antiderivative `F`): cell `p` of
+chunk `i` has the volume of cell `offset i + p` of the base grid -/
+theorem cell_volumes_agree (F : K → K) (lo hi : K) (sizes : List Nat) (hpos : 0 < sizes.sum) (d : K × K) (i p : Nat)
+    (hi' : i < sizes.length) (hs : 0 < sizeAt sizes i) :
+    F (cellEdge ((bounds1d lo hi sizes).getD i d).1 ((bounds1d lo hi sizes).getD i d).2 (sizeAt sizes i) (p + 1))
+      - F (cellEdge ((bounds1d lo hi sizes).getD i d).1 ((bounds1d lo hi sizes).getD i d).2 (sizeAt sizes i) p)
+    = F (cellEdge lo hi sizes.sum (offset sizes i + p + 1)) - F (cellEdge lo hi sizes.sum (offset sizes i + p)) := by
+  rw [cell_edges_agree lo hi sizes hpos d i p hi' hs, cell_edges_agree lo hi sizes hpos d i (p + 1) hi' hs,
+    Nat.add_assoc]
+
+/-- **volumes add up, any number of axes, any product measure** (`Fs`: one antiderivative per axis -
+Cartesian `id,..`, polar `[r^2]`, spherical `[r^3]`, cylindrical `[r^2, id]`): the volumes of all
+sub-grids of the mesh sum to the volume of the base grid -/
+theorem volumes_add_up_gen (Fs : List (K → K)) (axes : List (List Nat)) (hpos : ∀ sizes ∈ axes, 0 < sizes.sum)
+    (bs : List (K × K)) (hlen : bs.length = axes.length) (hF : Fs.length = axes.length) :
+    ((List.range (axes.map List.length).prod).map fun id =>
+        volGen Fs (subBounds bs axes (unravel (axes.map List.length) id))).sum
+      = volGen Fs bs := by
+  induction axes generalizing bs Fs with
+  | nil =>
+    cases bs with
+    | nil => cases Fs <;> simp [volGen, subBounds]
+    | cons _ _ => simp at hlen
+  | cons sizes ax ih =>
+    cases bs with
+    | nil => simp at hlen
+    | cons b bs' =>
+      cases Fs with
+      | nil => simp at hF
+      | cons F Fs' =>
+        obtain ⟨lo, hi⟩ := b
+        have hlen' : bs'.length = ax.length := by simpa using hlen
+        have hF' : Fs'.length = ax.length := by simpa using hF
+        have ih' := ih Fs' (fun s hs => hpos s (List.mem_cons_of_mem _ hs)) bs' hlen' hF'
+        have hs := hpos sizes (List.mem_cons_self ..)
+        simp only [List.map_cons, List.prod_cons, unravel, subBounds]
+        have step : ∀ id, volGen (F :: Fs')
+              ((bounds1d lo hi sizes).getD (id / (ax.map List.length).prod) (lo, hi) ::
+                subBounds bs' ax (unravel (ax.map List.length) (id % (ax.map List.length).prod)))
+            = (fun i => F ((bounds1d lo hi sizes).getD i (lo, hi)).2 - F ((bounds1d lo hi sizes).getD i (lo, hi)).1)
+                (id / (ax.map List.length).prod)
+              * (fun r => volGen Fs' (subBounds bs' ax (unravel (ax.map List.length) r)))
+                (id % (ax.map List.length).prod) := by
+          intro id; simp [volGen]
+        simp only [step]
+        refine (sum_range_mul
+          (fun i => F ((bounds1d lo hi sizes).getD i (lo, hi)).2 - F ((bounds1d lo hi sizes).getD i (lo, hi)).1)
+          (fun r => volGen Fs' (subBounds bs' ax (unravel (ax.map List.length) r))) _ _).trans ?_
+        rw [ih']
+        have e := map_range_getD (bounds1d lo hi sizes) (lo, hi) (fun b : K × K => F b.2 - F b.1)
+        rw [bounds1d_length] at e
+        rw [e, volumes_add_up F lo hi sizes hs]
+        simp [volGen]
+
+omit [LinearOrder K] [IsStrictOrderedRing K] in
+/-- the volume coefficients of the grid classes are product measures -/
+theorem volCoef_eq_volGen (r0 r1 z0 z1 : K) :
+    volCoef .cylindrical [(r0, r1), (z0, z1)] = volGen [fun r => r * r, fun z => z] [(r0, r1), (z0, z1)] ∧
+    volCoef .polar [(r0, r1)] = volGen [fun r => r * r] [(r0, r1)] ∧
+    volCoef .spherical [(r0, r1)] = volGen [fun r => r * r * r] [(r0, r1)] := by
+  simp [volCoef, volGen]
+
+/-- **volumes add up on a cylindrical mesh** (any chunking the model can express: the package only
+allows z-splits) -/
+theorem volumes_add_up_cylinder (sr sz : List Nat) (hr : 0 < sr.sum) (hz : 0 < sz.sum) (r0 r1 z0 z1 : K) :
+    ((List.range (sr.length * (sz.length * 1))).map fun id =>
+        volGen [fun r : K => r * r, fun z => z] (subBounds [(r0, r1), (z0, z1)] [sr, sz] (unravel [sr.length, sz.length] id))).sum
+      = volCoef .cylindrical [(r0, r1), (z0, z1)] := by
+  rw [(volCoef_eq_volGen r0 r1 z0 z1).1]
+  have := volumes_add_up_gen [fun r : K => r * r, fun z => z] [sr, sz]
+    (by intro s hs; simp at hs; rcases hs with rfl | rfl <;> assumption) [(r0, r1), (z0, z1)] rfl rfl
+  simpa using this
+
 end bounds
 
 /-! ## admissibility -/
